@@ -9,7 +9,7 @@
 From CB Require Import Spec Unstable.
 From Coq Require Import Permutation.
 From CBP Require Import Step RefDefs C02Lemmas Arith AbsLemmas AllOps FaultDefs FaultPrims FaultDropA FaultDropB FaultUser
-     Iters DrainP ExtendIo CmpHash Ctors PhysMoves UnstableEq Access Views RefTruncate FillExtend.
+     Iters DrainP ExtendIo CmpHash Ctors PhysMoves UnstableEq Access Views RefTruncate FillExtend FaultFrame SpecCorollaries.
 
 
 Theorem C08_iter :
@@ -36,3 +36,25 @@ Theorem C08_into_iter :
   forall script, refines_op (OIntoIter script).
 Proof. exact (fun script => exec_refines (OIntoIter script)). Qed.
 Print Assumptions C08_into_iter.
+
+Theorem C08_protocol :
+  forall l lo hi sc rs l' lo' hi',
+  (lo <= hi <= length l)%nat -> plain_script sc = true ->
+  spec_script l lo hi sc = (rs, l', (lo', hi')) ->
+  l' = l /\
+  de_protocol (sublist lo hi l) sc rs /\
+  lo' = (lo + length (front_items sc rs))%nat /\
+  hi' = (hi - length (back_items sc rs))%nat /\
+  (lo' <= hi')%nat /\
+  sublist lo' hi' l = unyielded (sublist lo hi l) sc rs.
+Proof. exact (script_protocol). Qed.
+Print Assumptions C08_protocol.
+
+Theorem C08_iter_protocol :
+  forall s w sc v s' w',
+  WF s -> fault w = None -> plain_script sc = true ->
+  exec (OIter sc) s w = (Ok v, s', w') ->
+  exists rs, v = OutScript rs /\ de_protocol (abs s) sc (map erase_sres rs) /\
+             abs s' = abs s /\ log w' = log w.
+Proof. exact (exec_iter_protocol). Qed.
+Print Assumptions C08_iter_protocol.
